@@ -453,7 +453,7 @@ Definition init_st : st :=
 
 (* ---- observation for the correspondence harness *)
 Definition grid_hash (cs : list (list Z)) : Z :=
-  fold_left (fun h c => (h * 257 + c) mod 1000000007) (concat cs) 0.
+  fold_left (fun h c => Z.land (h * 33 + c) 1073741823) (concat cs) 0.
 
 Definition obs (s : st) : list Z :=
   [csrlin s; pos s; row s; col s; b2z (ovf s); b2z (bra s); top s; bot s; b2z (act s); width s;
